@@ -113,7 +113,7 @@ static void explore(Result& R) {
     R["evaluations"] = cases + tissues; R["states"] = cases + tissues; R["transitions"] = cases + tissues; R["distinct_nontrivial"] = cases + tissues; R["traces_validated_against_impl"] = cases + tissues;
     R["single_interactions"] = cases; R["interactions_with_force"] = st.forces; R["interactions_with_coupling"] = st.couplings; R["interactions_with_no_effect"] = st.nothing; R["interactions_rejected_by_the_models_own_prefilter"] = st.prefiltered; R["forces_on_forbidden_side_checked_for_direction"] = st.forbidden_forces; R["tissues"] = tissues; R["tissues_with_contact_force"] = nonzero;
     R.tables["build"]["contact_model_index"] = CONTACT_MODEL_INDEX;
-    if (!st.forces || !st.forbidden_forces || !nonzero) R.internal_error = "no contact force was ever produced (vacuous)";
+    if (R.violations.empty() && (!st.forces || !st.forbidden_forces || !nonzero)) R.internal_error = "no contact force was ever produced (vacuous)";
     R.strings["rule"] = "single interactions: every ordered pair of the five cell types x 7 signed distances (in units of the relevant cut-off, both sides of the surface) x node above the interior / an edge / a vertex of the triangle x 3 strength sets x 2 cut-off pairs x 3 faces x 2 meshes, run through the model's own narrow-phase routine with force increments read back; tissues: two icospheres at 25 offsets x type pairs through contact_model::run; single concave cells";
     R.assumptions = {"forbidden side = behind the triangle normal, except epithelial node / ECM triangle and nucleus node / epithelial triangle where it is in front of it", "range: model 0 is held to the cut-off of the regime (adhesion in front, repulsion behind), the coupling models to the larger of the two (their rule)", "a repulsive force is demanded within the repulsion cut-off on the forbidden side unless the pair is epithelial-epithelial in a coupling model (which may couple instead)", "pairs rejected by the model's own node/normal pre-filters are counted, not judged"};
 }
